@@ -32,6 +32,9 @@
 (*  C20.notBoth      never a create and a delete for one application         *)
 (*  C20.quiet        no call for a suspended or deleted monitor              *)
 (*  drift.step       post-state / calls = what the model computes            *)
+(*  ext.appmon.*     extension beyond C20 (conformance class, reported as    *)
+(*                   DRIFT): the map reevaluate() returns and publishes in   *)
+(*                   the /app-monitors node, and what get_appmonitor shows   *)
 EXTENDS AppMonOps, Json, IOUtils
 
 Batch == JsonDeserialize(IOEnv.TRACE_FILE)
@@ -49,7 +52,10 @@ Canon(js) == [now |-> js.now,
               mon |-> [a \in DOMAIN js.mon |-> CanonMon(js.mon[a])],
               susp |-> [a \in DOMAIN js.susp |-> js.susp[a]],
               view |-> [a \in DOMAIN js.view |-> CanonInsts(js.view[a])],
-              zk |-> [a \in DOMAIN js.zk |-> CanonInsts(js.zk[a])]]
+              zk |-> [a \in DOMAIN js.zk |-> CanonInsts(js.zk[a])],
+              pub |-> [a \in DOMAIN js.pub |-> js.pub[a]],
+              waited |-> [a \in DOMAIN js.waited |-> js.waited[a]],
+              reader |-> [a \in DOMAIN js.reader |-> js.reader[a]]]
 CanonCalls(line) == [x \in DOMAIN line.calls |->
                        [app |-> line.calls[x].app, op |-> line.calls[x].op, n |-> line.calls[x].n,
                         insts |-> CanonInsts(line.calls[x].insts), o |-> line.calls[x].o]]
@@ -146,6 +152,43 @@ EnvExplained(pre, line, post) ==
          /\ same("now") /\ same("susp") /\ same("mon")
          /\ post.view = post.zk
 
+(* ---- extension: the published bookkeeping (ext.appmon.*, conformance class) -- *)
+(* pre.waited is `last_waited` of this evaluation.  A monitor is rate limited  *)
+(* when it is active, misses instances and issued no create (allowed <= 0).   *)
+ExtLimited(pre, calls) ==
+  {a \in DOMAIN pre.mon : Active(PreOf(pre), a) /\ Missing(PreOf(pre), a) > 0
+                          /\ Idx(calls, a, "create") = {}}
+ExtModified(pre, calls) ==
+  \/ \E a \in DOMAIN pre.susp : a \notin DOMAIN pre.mon
+  \/ \E a \in DOMAIN pre.mon : a \in DOMAIN pre.susp /\ pre.susp[a] <= pre.now
+  \/ \E a \in ExtLimited(pre, calls) : a \notin DOMAIN pre.waited
+  \/ \E x \in DOMAIN calls :
+        \/ (calls[x].op = "create" /\ calls[x].o = "ok" /\ calls[x].app \in DOMAIN pre.waited)
+        \/ (calls[x].op = "create" /\ calls[x].o \in Failing)
+        \/ (calls[x].op = "delete" /\ calls[x].o = "ok")
+(* `now + int((1 - available) / rate)` with the refilled bucket, +- TOL *)
+ExtWaitOk(pre, a, v) ==
+  LET m == pre.mon[a]
+      ex == Refilled(m.avail, m.count, m.last, pre.now, TOK)
+      lo == (TOK - ex - TOL) \div PerSec(m.count, TOK)
+      hi == (TOK - ex + TOL) \div PerSec(m.count, TOK)
+  IN v >= pre.now + lo /\ v <= pre.now + hi
+ExtWaited(pre, calls, post) ==
+  /\ DOMAIN post.waited = ExtLimited(pre, calls) \cup DOMAIN post.susp
+  /\ \A a \in DOMAIN post.waited :
+        IF a \in DOMAIN post.susp THEN post.waited[a] = post.susp[a]
+        ELSE ExtWaitOk(pre, a, post.waited[a])
+ExtPublished(pre, calls, post) ==
+  post.pub = (IF ExtModified(pre, calls) THEN post.waited ELSE pre.pub)
+ExtSuspensions(post) ==
+  \A a \in DOMAIN post.susp : a \in DOMAIN post.pub /\ post.pub[a] = post.susp[a]
+ExtCovered(post) == DOMAIN post.waited \subseteq DOMAIN post.pub
+(* what masterapi.get_appmonitor shows as suspend_until (-1 = None) *)
+ExtReader(post) ==
+  /\ DOMAIN post.reader = DOMAIN post.mon
+  /\ \A a \in DOMAIN post.reader :
+        post.reader[a] = (IF a \in DOMAIN post.pub THEN post.pub[a] ELSE 0 - 1)
+
 Verdict(pre, g, line, post) ==
   IF "exc" \in DOMAIN line THEN [fail |-> {"exc"}, ex |-> {}]
   ELSE IF line.ev = "Evaluate" THEN
@@ -157,8 +200,16 @@ Verdict(pre, g, line, post) ==
               \cup F("C20.surplus", Surplus(p, calls))
               \cup F("C20.notBoth", NotBoth(calls))
               \cup F("C20.quiet", Quiet(p, calls))
-              \cup F("drift.step", EvalExplained(pre, calls, post)),
+              \cup F("drift.step", EvalExplained(pre, calls, post))
+              \cup F("ext.appmon.waited", ExtWaited(pre, calls, post))
+              \cup F("ext.appmon.published", ExtPublished(pre, calls, post))
+              \cup F("ext.appmon.suspensions", ExtSuspensions(post))
+              \cup F("ext.appmon.covered", ExtCovered(post))
+              \cup F("ext.appmon.reader", ExtReader(post)),
      ex |-> E("C20", calls # <<>>)
+            \cup E("ext.rewritten", post.pub # pre.pub)
+            \cup E("ext.waiting", ExtLimited(pre, calls) # {})
+            \cup E("ext.stale", \E a \in DOMAIN post.pub : a \notin DOMAIN post.waited)
             \cup E("create", \E x \in DOMAIN calls : calls[x].op = "create")
             \cup E("delete", \E x \in DOMAIN calls : calls[x].op = "delete")
             \cup E("rateLimited", \E a \in DOMAIN pre.mon : Active(p, a) /\
@@ -172,7 +223,9 @@ Verdict(pre, g, line, post) ==
                      LET b == BudgetOf(gp, a, TOK) IN (b + TOL) \div TOK # (b - TOL) \div TOK)]
   ELSE
     [fail |-> F("drift.step", EnvExplained(pre, line, post))
-              \cup F("C20.budget", BudgetState(post.mon, TOK, TOL)),
+              \cup F("C20.budget", BudgetState(post.mon, TOK, TOL))
+              \cup F("ext.appmon.published", post.pub = pre.pub /\ post.waited = pre.waited)
+              \cup F("ext.appmon.reader", ExtReader(post)),
      ex |-> {}]
 
 Ghost0(s) == [a \in DOMAIN s.mon |-> [avail |-> s.mon[a].avail, last |-> s.mon[a].last,
